@@ -239,7 +239,7 @@ def step_problem(env, cfg):
     cells = [(i, j) for i in range(n) for j in range(n)]
 
     def req(s, a):
-        return {**inv(s), "in_spec": E.in_spec(env, a)}
+        return {**inv(s), "in_spec": E.in_spec(env, a), "step_count_below_int32_max": s.step_count < 2 ** 31 - 1}
 
     def ens(s, a):
         s2, ts = env.step(s, a)
